@@ -10,6 +10,11 @@ package main
 //	ins <path> <hexvalue> | del <path>   the caller's path and value buffers are scribbled over afterwards
 //	get <path>                       GetNodeValueRaw through the trie and through a CloneMPT (fresh cache); every
 //	                                 returned slice is scribbled over afterwards
+//	insstr <path> <hex s>            Insert of a typed value (a msgp string: MarshalMsg = msgp.AppendString)
+//	val <path>                       typed reads and the value node: GetNodeValue into a SecureSerializableValue and into a
+//	                                 msgp string (UnmarshalMsg = msgp.ReadStringBytes, may fail), and the ValueNode that
+//	                                 Iterate hands out for the path: its Encode (type code 1), hash, CreateNode round trip,
+//	                                 Clone, CopyFrom -> "ok <hex> str=<hex|err> vn=<hex Encode> h=<hex hash>" | notpresent
 //	layer                            (level only) save the pending changes to the side PNodeDB, then continue on a new
 //	                                 LevelNodeDB stacked on the current store (nodes now live on several levels)
 //	touch <v>                        what a pruning sweep does: every stored node is read (GetNode), its VERSION set to v
@@ -43,7 +48,22 @@ import (
 
 	"github.com/0chain/common/core/util"
 	"github.com/linxGnu/grocksdb"
+	"github.com/tinylib/msgp/msgp"
 )
+
+// msgpString is a typed trie value: a msgp string.
+type msgpString struct{ S string }
+
+func (m *msgpString) MarshalMsg(b []byte) ([]byte, error) { return msgp.AppendString(b, m.S), nil }
+
+func (m *msgpString) UnmarshalMsg(b []byte) ([]byte, error) {
+	s, o, err := msgp.ReadStringBytes(b)
+	if err != nil {
+		return b, err
+	}
+	m.S = s
+	return o, nil
+}
 
 type c14State struct {
 	mpt     *util.MerklePatriciaTrie
@@ -160,26 +180,8 @@ func (st *c14State) inspect(tag string, db util.NodeDB, dir string, fail func(st
 	return "ok " + rootStr(root) + " " + fmtEntries(all, keys)
 }
 
-// runC14 runs the case scribbling over every buffer handed to or received from the trie. If it fails, it is run again
-// without scribbling over the PATH buffers handed to Insert / Delete: a case that then passes fails only because the trie
-// keeps the caller's path buffer (open known finding C14-path-aliasing); anything else is reported unlisted.
-func runC14(ops []string) CaseResult {
-	res := runC14x(ops, true)
-	if len(res.Fails) > 0 {
-		for _, m := range res.Fails {
-			if strings.HasPrefix(m, "harness") {
-				return res
-			}
-		}
-		if again := runC14x(ops, false); len(again.Fails) == 0 {
-			// report the finding, but hand the outputs of the clean run to the correspondence: the byte-exact tie with
-			// the model stays in force for this case
-			again.Fails, again.Finding = res.Fails, "C14-path-aliasing"
-			return again
-		}
-	}
-	return res
-}
+// runC14 runs the case scribbling over every buffer handed to or received from the trie (paths, values, read results).
+func runC14(ops []string) CaseResult { return runC14x(ops, true) }
 
 func runC14x(ops []string, scribblePaths bool) CaseResult {
 	var st *c14State
@@ -288,6 +290,85 @@ func runC14x(ops []string, scribblePaths bool) CaseResult {
 			if got := lookupScribble(st.mpt, path); got != want {
 				fail("second lookup = %q, want %q", got, want)
 			}
+		case "insstr":
+			path := pathOf(f[1])
+			st.used[path] = true
+			sv := &msgpString{S: string(unhx(f[2]))}
+			want, _ := sv.MarshalMsg(nil)
+			out = guard(func() string {
+				k, err := st.mpt.Insert([]byte(path), sv)
+				if err != nil {
+					return errKind(err)
+				}
+				return "ok " + rootStr(k)
+			})
+			sv.S = "scribbled"
+			if strings.HasPrefix(out, "ok") {
+				st.content[path] = want
+				mutations++
+			} else {
+				fail("insert of a typed value failed: %s", out)
+			}
+		case "val":
+			path := pathOf(f[1])
+			st.used[path] = true
+			out = guard(func() string {
+				var raw util.SecureSerializableValue
+				if err := st.mpt.GetNodeValue([]byte(path), &raw); err != nil {
+					return errKind(err)
+				}
+				res := "ok " + hx(raw.Buffer)
+				var ms msgpString
+				if err := st.mpt.GetNodeValue([]byte(path), &ms); err != nil {
+					res += " str=err"
+				} else if ms.S == "" {
+					res += " str=-"
+				} else {
+					res += " str=" + hx([]byte(ms.S))
+				}
+				// the value node Iterate hands out for this path
+				var vn *util.ValueNode
+				_ = st.mpt.Iterate(context.Background(), func(_ context.Context, p util.Path, _ util.Key, n util.Node) error {
+					if v, ok := n.(*util.ValueNode); ok && string(p) == path {
+						vn = v
+					}
+					return nil
+				}, util.NodeTypeValueNode)
+				if vn == nil {
+					return res + " vn=none"
+				}
+				enc := vn.Encode()
+				res += " vn=" + hx(enc) + " h=" + hx(vn.GetHashBytes())
+				n2, err := util.CreateNode(bytes.NewReader(enc))
+				if err != nil {
+					fail("CreateNode of the value node's encoding: %v", err)
+				} else if v2, ok := n2.(*util.ValueNode); !ok || !bytes.Equal(v2.Encode(), enc) || !bytes.Equal(v2.GetHashBytes(), vn.GetHashBytes()) {
+					fail("the value node does not round-trip through Encode / CreateNode")
+				}
+				if c, ok := vn.Clone().(*util.ValueNode); !ok || !bytes.Equal(c.Encode(), enc) {
+					fail("Clone of the value node differs")
+				}
+				cp := util.NewValueNode()
+				if !cp.CopyFrom(vn) || !bytes.Equal(cp.Encode(), enc) {
+					fail("CopyFrom of the value node differs")
+				}
+				if !bytes.Equal(vn.GetValueBytes(), raw.Buffer) || !bytes.Equal(vn.GetHashBytes(), sha3sum(raw.Buffer)) {
+					fail("value node bytes / hash do not match the typed read")
+				}
+				return res
+			})
+			want := "notpresent"
+			if v, ok := st.content[path]; ok {
+				want = "ok " + hx(v)
+			}
+			if !strings.HasPrefix(out, want) {
+				fail("typed read = %q, want prefix %q", out, want)
+			}
+			if strings.Contains(out, " str=") && !strings.Contains(out, " str=err") {
+				tags["typed-read:string-ok"] = true
+			} else if strings.Contains(out, " str=err") {
+				tags["typed-read:unmarshal-error"] = true
+			}
 		case "layer":
 			if st.kind != "level" {
 				out = "ok"
@@ -393,6 +474,13 @@ func genValue14(r *rand.Rand) string {
 	}
 }
 
+func ptokHex(b []byte) string {
+	if len(b) == 0 {
+		return "-"
+	}
+	return hx(b)
+}
+
 func genC14(r *rand.Rand, tier string, idx int) []string {
 	stores := []string{"mem", "level", "pndb"}
 	kind := stores[idx%3]
@@ -431,8 +519,17 @@ func genC14(r *rand.Rand, tier string, idx int) []string {
 			ops = append(ops, fmt.Sprintf("ver %d", ver))
 		case x < 87 && kind == "level":
 			ops = append(ops, "layer")
-		case x < 93:
+		case x < 90:
 			ops = append(ops, "get "+p)
+		case x < 93:
+			if r.Intn(2) == 0 {
+				b := make([]byte, []int{0, 1, 5, 31, 32, 40, 300}[r.Intn(7)])
+				r.Read(b)
+				ops = append(ops, "insstr "+p+" "+ptokHex(b))
+				pool = append(pool, p0)
+			} else {
+				ops = append(ops, "val "+p)
+			}
 		case x < 95:
 			ops = append(ops, "store")
 		case x < 97:
@@ -441,6 +538,9 @@ func genC14(r *rand.Rand, tier string, idx int) []string {
 			ops = append(ops, "ins "+p+" "+genValue14(r))
 			pool = append(pool, p0)
 		}
+	}
+	for k := 0; k < 2 && len(pool) > 0; k++ {
+		ops = append(ops, "val "+ptok(pool[r.Intn(len(pool))]))
 	}
 	ops = append(ops, "store", "save")
 	if r.Intn(2) == 0 {
